@@ -22,7 +22,15 @@ outbound packet the other way round.
 
 Tokens: `F` FX; `N` a native non-FX coin with an ERC-20 pair; `U` a native non-FX coin without a pair; `A` the aliased
 token: a base denom with an ERC-20 pair whose alias on channel `l` is the voucher `vA l`; `V` a foreign voucher with an
-ERC-20 pair of its own; `X` an unregistered foreign voucher.
+ERC-20 pair of its own; `X` an unregistered foreign voucher; `W` a FOREIGN coin whose base denomination is NAMED like the
+chain's own coin (packet denomination `FX`), with an ERC-20 pair of its own; `Y` a coin with base denomination `FX` that
+arrives over ANOTHER route (multi-hop packet denomination `transfer/channel-<r+1>/FX` from source channel `r`), not
+registered; `Z` a multi-hop voucher (`transfer/channel-<r+1>/ubi`) with an ERC-20 pair of its own.
+
+Every inbound packet carries a denomination PATH (`PDenom`: hops + base name).  Two pieces of code turn it into the
+denomination of the receiving chain: the ibc-go transfer application (`appDenom`, modelled dependency) when it credits
+the receiver, and the middleware's `parseIBCCoinDenom` when it decides what to do with the credit — the latter is the
+regenerated decision program `Gen.C19.parseDenomProg`, INTERPRETED by `hookDenom`.
 
 The state is split in `Bal` (bank balances, ERC-20 balances, memo-call marker and last memo-call sender) and `Ctl`
 (channel table, voucher metadata, packet commitments, relation store, send sequence, and three write-only GHOST logs
@@ -36,13 +44,13 @@ Simplifications (stated, not hidden):
 -/
 namespace FxVerif.Model.C19
 open FxVerif
-open FxVerif.Gen.C19 (GuardE AckCond)
+open FxVerif.Gen.C19 (GuardE AckCond PCond PRes)
 
 abbrev Addr := Nat
 abbrev Ch := Nat
 abbrev Seq := Nat
 
-inductive Tok where | F | N | U | A | V | X
+inductive Tok where | F | N | U | A | V | X | W | Y | Z
   deriving DecidableEq, Repr
 
 inductive RKind where | hex | bech | bad
@@ -55,10 +63,11 @@ inductive Memo where | none | junk | callok | callrev | callpay
 inductive Denom where
   | fx | nat | unreg | base
   | vA (l : Ch) | vV (l : Ch) | vX (l : Ch)
+  | vW (l : Ch) | vY (l : Ch) | vZ (l : Ch)
   deriving DecidableEq, Repr
 
-/-- ERC-20 token contracts: of `nat`, of the aliased base denom, of the voucher `vV l` -/
-inductive ETok where | nat | base | v (l : Ch)
+/-- ERC-20 token contracts: of `nat`, of the aliased base denom, of the vouchers `vV l`, `vW l`, `vZ l` -/
+inductive ETok where | nat | base | v (l : Ch) | w (l : Ch) | z (l : Ch)
   deriving DecidableEq, Repr
 
 /-! ## tiny association-list stores (absent = 0) -/
@@ -82,7 +91,7 @@ def erc20Mod : Addr := 2001
 /-! ## denominations -/
 
 def Denom.isIbc : Denom → Bool
-  | .vA _ | .vV _ | .vX _ => true
+  | .vA _ | .vV _ | .vX _ | .vW _ | .vY _ | .vZ _ => true
   | _ => false
 
 /-- name of a native denomination (a voucher's name is `ibc/<hash>`) -/
@@ -94,6 +103,7 @@ def Denom.name? : Denom → Option String
 def bankDenom : Tok → Ch → Denom
   | .F, _ => .fx | .N, _ => .nat | .U, _ => .unreg
   | .A, l => .vA l | .V, l => .vV l | .X, l => .vX l
+  | .W, l => .vW l | .Y, l => .vY l | .Z, l => .vZ l
 
 /-- coins of this chain (escrowed on the way out, un-escrowed on the way home) -/
 def returning : Tok → Bool
@@ -102,12 +112,12 @@ def returning : Tok → Bool
 
 /-- the erc20 module's token pairs -/
 def pairOf : Denom → Option ETok
-  | .nat => some .nat | .base => some .base | .vV l => some (.v l)
+  | .nat => some .nat | .base => some .base | .vV l => some (.v l) | .vW l => some (.w l) | .vZ l => some (.z l)
   | _ => none
 
 /-- the ERC-20 contract in which a token of class `t` (moved on channel `l`) is held -/
 def ercTokOf : Tok → Ch → Option ETok
-  | .N, _ => some .nat | .A, _ => some .base | .V, l => some (.v l)
+  | .N, _ => some .nat | .A, _ => some .base | .V, l => some (.v l) | .W, l => some (.w l) | .Z, l => some (.z l)
   | _, _ => none
 
 /-- evaluation of a translated guard on a denomination (no string constant of the code is a voucher hash) -/
@@ -145,6 +155,85 @@ def ChanSel.pick : ChanSel → Ch → Ch → Option Ch
 def keyOf (sel : ChanSel) (seqOk : Bool) (src dst : Ch) (seq : Seq) : Option (Ch × Seq) :=
   if seqOk then (sel.pick src dst).map (fun c => (c, seq)) else none
 
+/-! ## the denomination an inbound packet is credited in, and the denomination the middleware believes it was -/
+
+/-- a packet denomination `transfer/channel-h₁/…/transfer/channel-hₙ/base` (the port is always `transfer`; the base name
+contains no `/`) -/
+structure PDenom where
+  hops : List Ch
+  base : String
+  deriving DecidableEq, Repr
+
+/-- a denomination as the receiving chain names it: a bare name, or the voucher `ibc/<hash of hops/base>`; `unknown` = a
+string that names no coin (the prefix of the wrong channel cut off, an untranslated expression) -/
+inductive RDenom where
+  | native (name : String) | voucher (hops : List Ch) (base : String) | unknown
+  deriving DecidableEq, Repr
+
+/-- the full path string -/
+def PDenom.render (pd : PDenom) : String :=
+  pd.hops.foldr (fun h acc => "transfer/channel-" ++ toString h ++ "/" ++ acc) pd.base
+
+/-- the prefix `transfer/channel-c/` cut off a path that starts with it -/
+def stripHop (c : Ch) (pd : PDenom) : RDenom :=
+  match pd.hops with
+  | h :: rest => if h = c then (match rest with | [] => .native pd.base | _ => .voucher rest pd.base) else .unknown
+  | [] => .unknown
+
+/-- the ibc-go transfer application's `OnRecvPacket` (MODELLED DEPENDENCY, ibc-go v8 `relay.go`): a path that starts with
+the packet's SOURCE port / channel returns home — the prefix is cut off, a bare name is a coin of this chain, a longer
+path the voucher it was held as —; every other path gets the DESTINATION port / channel in front and is hashed.
+`src` = the counterparty's channel id, `dst` = ours. -/
+def appDenom (src dst : Ch) (pd : PDenom) : RDenom :=
+  if pd.hops.head? = some src then stripHop src pd else .voucher (dst :: pd.hops) pd.base
+
+def evalPCond (src dst : Ch) : PCond → PDenom → Bool
+  | .returnsVia e, pd => match (chanSelOf e).pick src dst with | some c => pd.hops.head? == some c | none => false
+  | .baseEq c, pd => pd.base == c
+  | .denomEq c, pd => pd.render == c
+  | .hasPrefix p, pd => p.isPrefixOf pd.render
+  | .not c, pd => !evalPCond src dst c pd
+  | .and a b, pd => evalPCond src dst a pd && evalPCond src dst b pd
+  | .or a b, pd => evalPCond src dst a pd || evalPCond src dst b pd
+  | .tt, _ => true
+  | .unknown _, _ => false
+
+def evalPRes (src dst : Ch) : PRes → PDenom → RDenom
+  | .strip e, pd => match (chanSelOf e).pick src dst with | some c => stripHop c pd | none => .unknown
+  | .prefixed e, pd => match (chanSelOf e).pick src dst with | some c => .voucher (c :: pd.hops) pd.base | none => .unknown
+  | .const c, _ => .native c
+  | .same, pd => match pd.hops with | [] => .native pd.base | _ => .unknown
+  | .unknown _, _ => .unknown
+
+/-- `parseIBCCoinDenom` as the regenerated decision program says: the result of the first path whose condition holds -/
+def hookDenom (prog : List (PCond × PRes)) (src dst : Ch) (pd : PDenom) : RDenom :=
+  match prog.find? (fun p => evalPCond src dst p.1 pd) with
+  | some p => evalPRes src dst p.2 pd
+  | none => .unknown
+
+/-- the denomination path an inbound packet of class `t` carries; `src` = the counterparty's channel id -/
+def pktDenom : Tok → Ch → PDenom
+  | .F, src => ⟨[src], "FX"⟩ | .N, src => ⟨[src], "nat"⟩ | .U, src => ⟨[src], "uuu"⟩
+  | .A, _ => ⟨[], "ubo"⟩ | .V, _ => ⟨[], "ubi"⟩ | .X, _ => ⟨[], "ufor"⟩
+  | .W, _ => ⟨[], "FX"⟩ | .Y, src => ⟨[src + 1], "FX"⟩ | .Z, src => ⟨[src + 1], "ubi"⟩
+
+/-- the trace of a bank denomination of the model (the multi-hop vouchers came through `src + 1` on the other side) -/
+def traceOf (src : Ch) : Denom → RDenom
+  | .fx => .native "FX" | .nat => .native "nat" | .unreg => .native "uuu" | .base => .native "bo"
+  | .vA l => .voucher [l] "ubo" | .vV l => .voucher [l] "ubi" | .vX l => .voucher [l] "ufor"
+  | .vW l => .voucher [l] "FX" | .vY l => .voucher [l, src + 1] "FX" | .vZ l => .voucher [l, src + 1] "ubi"
+
+/-- the bank denomination of the model a receiving-chain denomination is (`none`: a coin nobody holds) -/
+def Denom.ofR : RDenom → Option Denom
+  | .native n =>
+    if n == "FX" then some .fx else if n == "nat" then some .nat else if n == "uuu" then some .unreg
+    else if n == "bo" then some .base else none
+  | .voucher [l] b =>
+    if b == "ubo" then some (.vA l) else if b == "ubi" then some (.vV l) else if b == "ufor" then some (.vX l)
+    else if b == "FX" then some (.vW l) else none
+  | .voucher [l, _] b => if b == "FX" then some (.vY l) else if b == "ubi" then some (.vZ l) else none
+  | _ => none
+
 /-! ## acknowledgements as they are on the wire, and the two decisions made about them -/
 
 /-- wire shapes of an acknowledgement: the protobuf oneof `{ bytes result; string error }` in its JSON form.  `result` /
@@ -153,9 +242,34 @@ or bytes the codec rejects (malformed JSON, unknown field).  A condition of the 
 emptiness of its content, which is what this type keeps. -/
 inductive AckWire where
   | result (nonEmpty : Bool) | error (nonEmpty : Bool) | unset | undecodable
+  /-- bytes that DECODE but are not the canonical encoding of what they decode to (both arms of the oneof, extra
+  whitespace, another key order, escaped characters): `app` = what the transfer application's decoder makes of them,
+  `mw` = what the middleware's makes of them — two separate decoder runs, which for both arms resolve in map-iteration
+  order and may differ.  `0` result with content, `1` result without, `2` error with a reason, `3` error without, else
+  no arm. -/
+  | nonCanonical (app mw : Nat)
   deriving DecidableEq, Repr
 
 def AckWire.all : List AckWire := [.result true, .result false, .error true, .error false, .unset, .undecodable]
+
+/-- the canonical acknowledgement a decoder run number stands for -/
+def armOf : Nat → AckWire
+  | 0 => .result true | 1 => .result false | 2 => .error true | 3 => .error false | _ => .unset
+
+/-- what the transfer application's own decoder run yields -/
+def AckWire.appView : AckWire → AckWire
+  | .nonCanonical a _ => armOf a
+  | w => w
+
+/-- what the middleware's decoder run yields (`none`: the codec rejects the bytes) -/
+def AckWire.mwView : AckWire → Option AckWire
+  | .nonCanonical _ m => some (armOf m)
+  | .undecodable => none
+  | w => some w
+
+def AckWire.isCanonical : AckWire → Bool
+  | .nonCanonical _ _ => false
+  | _ => true
 
 /-- evaluation of a translated condition on a decoded acknowledgement (`Success()` of ibc-go: the arm is `result`) -/
 def evalAck : AckCond → AckWire → Bool
@@ -221,7 +335,21 @@ structure Cfg where
   refundCached : Bool        -- refundPacketTokenHook runs IBCCoinRefund on a CacheContext
   ackProg : List (AckCond × HookAct)  -- Keeper.OnAcknowledgementPacket as a decision program over the decoded ack
   appAckProg : List (AckCond × Bool)  -- the transfer application's: does it refund (un-escrow / re-mint)
+  parseProg : List (PCond × PRes)     -- parseIBCCoinDenom as a decision program over the packet denomination
+  ackSteps : List (String × String)   -- IBCMiddleware.OnAcknowledgementPacket: (step, how its error is treated) in order
+  timeoutSteps : List (String × String) -- IBCMiddleware.OnTimeoutPacket: the same
   deriving DecidableEq, Repr
+
+/-- the step order of the repaired middleware (fix d4b7c5e): decode once, demand the canonical encoding, application,
+packet data, keeper hook — every error returned to IBC core -/
+def stdAckSteps : List (String × String) :=
+  [("decode-ack", "returned"), ("canonical-ack", "returned"), ("app", "returned"), ("decode-data", "returned"), ("hook", "returned")]
+
+def stdTimeoutSteps : List (String × String) := [("app", "returned"), ("decode-data", "returned"), ("hook", "returned")]
+
+def stdParseProg : List (PCond × PRes) :=
+  [(.returnsVia "packet.GetSourceChannel()", .strip "packet.GetSourceChannel()"),
+   (.not (.returnsVia "packet.GetSourceChannel()"), .prefixed "packet.GetDestChannel()")]
 
 def genAckProg : List (AckCond × HookAct) := Gen.C19.ackDecision.map fun p => (p.1, hookActOf p.2)
 def genAppAckProg : List (AckCond × Bool) := Gen.C19.appAckDecision.map fun p => (p.1, p.2.contains "refundPacketToken")
@@ -268,6 +396,9 @@ def genCfg : Cfg where
   refundCached := Gen.C19.refundHookCtx.startsWith "cache"
   ackProg := genAckProg
   appAckProg := genAppAckProg
+  parseProg := Gen.C19.parseDenomProg
+  ackSteps := Gen.C19.ackMiddlewareProg
+  timeoutSteps := Gen.C19.timeoutMiddlewareProg
 
 /-- reference configuration with the success-ack delete prefix as an explicit parameter (tree independent):
 `refCfg 7` is the pinned code, `refCfg 4` the repaired code -/
@@ -306,6 +437,9 @@ def refCfg (ackDel : Nat) : Cfg where
   refundCached := false
   ackProg := [(.isError, .refund), (.not .isError, .after)]
   appAckProg := [(.isError, true), (.not .isError, false)]
+  parseProg := stdParseProg
+  ackSteps := stdAckSteps
+  timeoutSteps := stdTimeoutSteps
 
 /-- what the keeper hook does with acknowledgement `w` (no path applies: nothing) -/
 def Cfg.ackAct (cfg : Cfg) (w : AckWire) : HookAct := (firstMatch cfg.ackProg w).getD .nothing
@@ -446,7 +580,7 @@ def tsum {κ : Type} (p : κ → Bool) (s : Store κ) : Nat := ((s.filter (fun x
 
 /-- the coin that backs an ERC-20 token -/
 def denomOfE : ETok → Denom
-  | .nat => .nat | .base => .base | .v l => .vV l
+  | .nat => .nat | .base => .base | .v l => .vV l | .w l => .vW l | .z l => .vZ l
 
 /-- supply of ERC-20 token `t`: the sum of all its balances -/
 def supply (t : ETok) (erc : Store (Addr × ETok)) : Nat := tsum (fun k => decide (k.2 = t)) erc
@@ -507,7 +641,21 @@ def recvApp (b : Bal) (l : Ch) (t : Tok) (to : Addr) (amt : Nat) : Option Bal :=
     else some (b.move (bankDenom t l) (escrow l) to amt)
   else some (b.mint to (bankDenom t l) amt)
 
-/-- (2) the conversion block of `Keeper.OnRecvPacket` -/
+/-- (2) the conversion block of `Keeper.OnRecvPacket`, for the denomination `d` the hook believes it received -/
+def convStepD (cfg : Cfg) (vmeta : List Ch) (b : Bal) (d : Denom) (k : RKind) (to : Addr) (amt : Nat) : Bal × Bool :=
+  if evalGuard cfg.recvGuard d then
+    if cfg.recvRequiresHex && k != .hex then (b, false)
+    else if !cfg.recvConverts then (b, true)
+    else
+      match toBaseCoin b d (resolve cfg vmeta true d) to amt with
+      | none => (b, false)
+      | some (b1, d1) =>
+        match convertCoin b1 d1 to to amt with
+        | none => (b1, false)
+        | some b2 => (b2, true)
+  else (b, true)
+
+/-- … for the denomination the transfer application credited -/
 def convStep (cfg : Cfg) (vmeta : List Ch) (b : Bal) (l : Ch) (t : Tok) (k : RKind) (to : Addr) (amt : Nat) : Bal × Bool :=
   let d := bankDenom t l
   if evalGuard cfg.recvGuard d then
@@ -521,6 +669,10 @@ def convStep (cfg : Cfg) (vmeta : List Ch) (b : Bal) (l : Ch) (t : Tok) (k : RKi
         | none => (b1, false)
         | some b2 => (b2, true)
   else (b, true)
+
+/-- the bank denomination `parseIBCCoinDenom` (regenerated program, interpreted) answers for an inbound packet of class `t`
+on the channel `src` (theirs) / `l` (ours) -/
+def hookSees (cfg : Cfg) (src l : Ch) (t : Tok) : Option Denom := Denom.ofR (hookDenom cfg.parseProg src l (pktDenom t src))
 
 /-- what a packet's `sender` string is: any string that is not an address of this chain (`remote`), or the hex /
 bech32 form of the address of the LOCAL account `a`.  Encoding in op lines: `10000 + a` hex, `20000 + a` bech32 -/
@@ -564,9 +716,12 @@ def recvHook (cfg : Cfg) (vmeta : List Ch) (b : Bal) (src l : Ch) (t : Tok) (k :
   -- the hook recomputes the received denomination; a coin of this chain is recognised by the prefix `transfer/<src>/`
   if returning t && !(cfg.recvRetChan.pick src l == some src) then (b, false)
   else
-    let c := convStep cfg vmeta b l t k to amt
-    if !c.2 then c
-    else if cfg.recvMemoAfter then memoStep cfg c.1 src l m snd else c
+    match hookSees cfg src l t with
+    | none => (b, false)            -- a denomination the receiver holds nothing of: the conversion fails
+    | some dh =>
+      let c := convStepD cfg vmeta b dh k to amt
+      if !c.2 then c
+      else if cfg.recvMemoAfter then memoStep cfg c.1 src l m snd else c
 
 def recvBal (cfg : Cfg) (vmeta : List Ch) (b : Bal) (src l : Ch) (t : Tok) (k : RKind) (to : Addr) (amt : Nat) (m : Memo)
     (snd : Nat) : Bal × Bool :=
@@ -679,11 +834,6 @@ def refundState (cfg : Cfg) (s : State) (l : Ch) (seq : Seq) (p : Pkt) (refunds 
       | some b2 => some { bal := b2, ctl := refundCtl cfg s.ctl (l, seq) p }
     else some { bal := b1, ctl := { s.ctl with commits := dropCommit s.ctl.commits (l, seq) } }
 
-def settleState (cfg : Cfg) (s : State) (l : Ch) (seq : Seq) (p : Pkt) : Mode → Option State
-  | .ackOk => some { s with ctl := ackOkCtl cfg s.ctl (l, seq) p }
-  | .ackErr => refundState cfg s l seq p cfg.ackErrRefunds
-  | .timeout => refundState cfg s l seq p cfg.timeoutRefunds
-
 /-- ONE settlement by an acknowledgement, the two decisions kept apart: `appRef` = the transfer application refunds
 (step 1, un-escrow / re-mint), `act` = what the keeper hook then does (step 2).  When they agree this is `settleState`
 at `.ackErr` / `.ackOk`; when they do not, the sender is refunded in bank form with the record dropped as after a
@@ -709,11 +859,115 @@ def settleBy (cfg : Cfg) (s : State) (l : Ch) (seq : Seq) (p : Pkt) : Bool → H
       else some { s with ctl := { s.ctl with commits := dropCommit s.ctl.commits (l, seq), ackedOk := (l, seq) :: s.ctl.ackedOk } }
     | some b2 => some { bal := b2, ctl := refundCtl cfg s.ctl (l, seq) p }
 
-/-- an acknowledgement as it is on the wire: the application decodes and decides, then the hook decides -/
-def settleAckState (cfg : Cfg) (s : State) (l : Ch) (seq : Seq) (p : Pkt) (w : AckWire) : Option State :=
+/-- an acknowledgement in its canonical encoding, processed in the order "application, then hook" -/
+def settleAckStateStd (cfg : Cfg) (s : State) (l : Ch) (seq : Seq) (p : Pkt) (w : AckWire) : Option State :=
+  if !w.isCanonical then none else
   match cfg.appRefunds w with
   | none => none
   | some ar => settleBy cfg s l seq p ar (cfg.ackAct w)
+
+/-! ### the callbacks of `IBCMiddleware` as the REGENERATED step lists say
+
+`OnAcknowledgementPacket` / `OnTimeoutPacket` are lists of steps (`decode-ack`, `canonical-ack`, `app`, `decode-data`,
+`hook`), each with how its error is treated (`returned` to IBC core, or not).  `runMw` FOLDS over the list: the balances are
+threaded through the steps in the order of the list (the hook converts what the application handed back — or, in another
+order, looks for coins the sender does not hold yet), a returned error aborts the run (IBC core rolls everything back);
+the bookkeeping (`ackCtlOf`) depends only on what ran. -/
+
+/-- what one run of the callback has done so far -/
+structure MwRun where
+  bal : Bal
+  app : Option Bool := none                 -- the wrapped application ran: did it refund
+  hook : Option (HookAct × Bool) := none    -- the keeper hook ran: what it did; `false` = its refund failed, error dropped
+  deriving DecidableEq, Repr
+
+/-- what the run is about: do the bytes decode, are they the canonical encoding, what the application decides on ITS
+decoder run (`none`: it fails), what the hook decides on the MIDDLEWARE's decoder run -/
+structure MwIn where
+  decodes : Bool
+  canonical : Bool
+  appDec : Option Bool
+  act : HookAct
+  deriving DecidableEq, Repr
+
+def mwStep (cfg : Cfg) (c : Ctl) (l : Ch) (seq : Seq) (p : Pkt) (i : MwIn) (r : MwRun) (st : String × String) : Option MwRun :=
+  let returned := st.2 == "returned"
+  if st.1 == "decode-ack" then (if !i.decodes && returned then none else some r)
+  else if st.1 == "canonical-ack" then (if !i.canonical && returned then none else some r)
+  else if st.1 == "app" then
+    match i.appDec with
+    | none => if returned then none else some r
+    | some false => some { r with app := some false }
+    | some true =>
+      match refundApp r.bal l p with
+      | none => if returned then none else some r
+      | some b1 => some { r with bal := b1, app := some true }
+  else if st.1 == "hook" then
+    match i.act with
+    | .refund =>
+      match refundHook cfg c.vmeta r.bal l p (refundForm cfg c (l, seq) p) with
+      | none => if cfg.refundErrPropagates && returned then none else some { r with hook := some (.refund, false) }
+      | some b2 => some { r with bal := b2, hook := some (.refund, true) }
+    | a => some { r with hook := some (a, true) }
+  else some r      -- `decode-data` (the packet data is what IBC core committed to) and anything the translator does not name
+
+/-- the bookkeeping of a finished run: `ar` the application refunded, `act` what the hook did, `ok` its refund went through -/
+def ackCtlOf (cfg : Cfg) (c : Ctl) (k : Ch × Seq) (p : Pkt) : Bool → HookAct → Bool → Ctl
+  | _, .refund, true => refundCtl cfg c k p
+  | true, .refund, false =>
+    { c with commits := dropCommit c.commits k, refundLog := ⟨k.1, k.2, p.sender, p.tok, p.amt, false⟩ :: c.refundLog }
+  | false, .refund, false => { c with commits := dropCommit c.commits k, ackedOk := k :: c.ackedOk }
+  | true, .nothing, _ => { c with commits := dropCommit c.commits k }
+  | true, .after, _ =>
+    { ackOkCtl { cfg with ackOkCallsAfter := true } c k p with
+        ackedOk := c.ackedOk, refundLog := ⟨k.1, k.2, p.sender, p.tok, p.amt, false⟩ :: c.refundLog }
+  | false, .after, _ => ackOkCtl { cfg with ackOkCallsAfter := true } c k p
+  | false, .nothing, _ => ackOkCtl { cfg with ackOkCallsAfter := false } c k p
+
+def mwFinish (cfg : Cfg) (s : State) (l : Ch) (seq : Seq) (p : Pkt) (r : MwRun) : State :=
+  let h := r.hook.getD (.nothing, true)
+  { bal := r.bal, ctl := ackCtlOf cfg s.ctl (l, seq) p (r.app.getD false) h.1 h.2 }
+
+def mwFold (cfg : Cfg) (c : Ctl) (l : Ch) (seq : Seq) (p : Pkt) (i : MwIn) : List (String × String) → MwRun → Option MwRun
+  | [], r => some r
+  | st :: rest, r =>
+    match mwStep cfg c l seq p i r st with
+    | none => none
+    | some r' => mwFold cfg c l seq p i rest r'
+
+/-- one run of a middleware callback over the step list `steps`; `none` = an error reaches IBC core, nothing is written -/
+def runMw (cfg : Cfg) (s : State) (l : Ch) (seq : Seq) (p : Pkt) (i : MwIn) (steps : List (String × String)) : Option State :=
+  (mwFold cfg s.ctl l seq p i steps { bal := s.bal }).map (mwFinish cfg s l seq p)
+
+/-- an acknowledgement as it is on the wire: the middleware's decoder run decides for the hook, the application's own for
+the application (of a non-canonical encoding the two may differ) -/
+def mwInOfAck (cfg : Cfg) (w : AckWire) : MwIn where
+  decodes := w.mwView.isSome
+  canonical := w.mwView.isSome && w.isCanonical
+  appDec := cfg.appRefunds w.appView
+  act := cfg.ackAct (w.mwView.getD .unset)
+
+def mwInOfTimeout (cfg : Cfg) : MwIn where
+  decodes := true
+  canonical := true
+  appDec := some true
+  act := if cfg.timeoutRefunds then .refund else .nothing
+
+/-- an acknowledgement as it is on the wire, through `IBCMiddleware.OnAcknowledgementPacket` as regenerated -/
+def settleAckState (cfg : Cfg) (s : State) (l : Ch) (seq : Seq) (p : Pkt) (w : AckWire) : Option State :=
+  runMw cfg s l seq p (mwInOfAck cfg w) cfg.ackSteps
+
+/-- a settlement as classified (`ackOk` / `ackErr`), and a timeout through `IBCMiddleware.OnTimeoutPacket` as regenerated -/
+def settleState (cfg : Cfg) (s : State) (l : Ch) (seq : Seq) (p : Pkt) : Mode → Option State
+  | .ackOk => some { s with ctl := ackOkCtl cfg s.ctl (l, seq) p }
+  | .ackErr => refundState cfg s l seq p cfg.ackErrRefunds
+  | .timeout => runMw cfg s l seq p (mwInOfTimeout cfg) cfg.timeoutSteps
+
+/-- the same with the timeout in the order "application, then hook" -/
+def settleStateStd (cfg : Cfg) (s : State) (l : Ch) (seq : Seq) (p : Pkt) : Mode → Option State
+  | .ackOk => some { s with ctl := ackOkCtl cfg s.ctl (l, seq) p }
+  | .ackErr => refundState cfg s l seq p cfg.ackErrRefunds
+  | .timeout => refundState cfg s l seq p cfg.timeoutRefunds
 
 /-- the denomination / contract the sender of a packet is observed in -/
 def obsDenom (t : Tok) (l : Ch) : Denom := if t = .A then .base else bankDenom t l
@@ -799,7 +1053,8 @@ def run (s : State) (ops : List Op) : State := runWith genCfg s ops
 /-! ## line protocol -/
 
 def parseTok : String → Option Tok
-  | "F" => some .F | "N" => some .N | "U" => some .U | "A" => some .A | "V" => some .V | "X" => some .X | _ => none
+  | "F" => some .F | "N" => some .N | "U" => some .U | "A" => some .A | "V" => some .V | "X" => some .X
+  | "W" => some .W | "Y" => some .Y | "Z" => some .Z | _ => none
 
 def parseMemo : String → Option Memo
   | "none" => some .none | "junk" => some .junk | "callok" => some .callok | "callrev" => some .callrev
@@ -812,7 +1067,11 @@ def parseKind : String → Option RKind
 def parseWire : String → Option AckWire
   | "ok" => some (.result true) | "okempty" => some (.result false)
   | "err" => some (.error true) | "errempty" => some (.error false)
-  | "unset" => some .unset | "bad" => some .undecodable | _ => none
+  | "unset" => some .unset | "bad" => some .undecodable
+  -- bytes that decode but are not canonical: a re-spelt error / result acknowledgement (both decoder runs agree), and an
+  -- acknowledgement with BOTH arms (the two runs may disagree: here the application reads the error, the middleware the result)
+  | "ncerr" => some (.nonCanonical 2 2) | "ncok" => some (.nonCanonical 0 0) | "ncboth" => some (.nonCanonical 2 0)
+  | _ => none
 
 def parseOp (line : String) : Op :=
   match Util.words line with
